@@ -437,6 +437,10 @@ class EngineBase:
             if isinstance(v, VList):
                 if v.elem == kind.elem:
                     return v
+                if v.elem is NONE and not v.arrs:
+                    n = z3.simplify(v.n)
+                    if z3.is_int_value(n) and n.as_long() == 0:
+                        return self.fresh_list(kind.elem, 'empty', n=z3.IntVal(0))     # the empty literal fits every list kind
                 if isinstance(kind.elem, OBJ) and isinstance(v.elem, OBJ):
                     return VList(kind.elem, v.arrs, v.off, v.n)
             return None
